@@ -135,7 +135,7 @@ def gen_targets(seed: int, tier: dict, pools) -> list[dict]:
     per_fam = tier.get("per_family", 3)
     gen_slots, gen_member = [], []
     for gf in gen_fams:
-        n_mem = max(per_fam, genmodels.members_per_batch(gf, per_fam, cap=tier.get("variant_cap", 9)))
+        n_mem = max(per_fam, genmodels.members_per_batch(gf, per_fam, cap=tier.get("variant_cap", 10)))
         gen_slots += [gf] * n_mem
         gen_member += list(range(n_mem))
     from dsim.c14 import genmodels
